@@ -597,3 +597,270 @@ Proof. intros H. apply (proj1 ids_are_anchors). apply in_map. exact H. Qed.
 
 Lemma valid_shape_partial (t : item) : NoDup (ids_of t) -> build_raises t = false -> shape_ok (build t) = true.
 Proof. intros H _. apply (proj1 build_shape). exact H. Qed.
+
+(* ================================================================== part 3: no anchor declared twice *)
+(* C01's development (Proofs/LayoutP.v) is used qualified: assemble_d is the children loop of
+   build_json_schema without the accumulator, unions_ok the well-formedness of REDEFINES among siblings. *)
+Require SR.Proofs.LayoutP.
+Module L := SR.Proofs.LayoutP.
+
+(* well-formed record descriptions for this property: REDEFINES among the children of a non-repeated group
+   name an earlier sibling that is not itself a redefiner (L.unions_ok, as in C01), no REDEFINES inside a
+   repeated group (there build_json_schema raises); OCCURS DEPENDING ON allowed anywhere *)
+Fixpoint wf8 (e : env) (x : item) : bool :=
+  match x with
+  | Elem _ _ _ _ => true
+  | Group _ oc _ ks =>
+      wf8_kids e ks && L.unions_ok e [] ks
+      && match oc with Once => true | _ => match redef_targets ks with [] => true | _ => false end end
+  end
+with wf8_kids (e : env) (ks : items) : bool :=
+  match ks with INil => true | ICons x xs => wf8 e x && wf8_kids e xs end.
+
+Lemma ids_bridge : (forall x, L.ids x = ids_of x) /\ (forall ks, L.ids_kids ks = ids_kids ks).
+Proof.
+  apply item_items_ind.
+  - reflexivity.
+  - intros i oc rd ks IH. simpl. f_equal. exact IH.
+  - reflexivity.
+  - intros x IHx xs IHxs. simpl. f_equal; [exact IHx|exact IHxs].
+Qed.
+
+Lemma keys_bridge :
+  (forall s, L.keys_js s = anchors_of s) /\ (forall ps, L.keys_props ps = anchors_props ps)
+  /\ (forall al, L.keys_alts al = anchors_alts al).
+Proof.
+  apply js_props_alts_ind; intros; cbn [L.keys_js L.keys_props L.keys_alts anchors_of anchors_props anchors_alts js_anchor L.opt_list];
+    try match goal with |- context[match ?a with Some _ => _ | None => _ end] => destruct a end;
+    cbn [L.opt_list app]; try reflexivity; try congruence.
+Qed.
+
+Lemma group_anchors e i oc rd ks :
+  NoDup (L.ids_kids ks) -> wf8 e (Group i oc rd ks) = true ->
+  anchors_of (build_alt (Group i oc rd ks)) = KName i :: anchors_props (L.assemble_d ks).
+Proof.
+  intros Hnd Hw. cbn [wf8] in Hw. apply andb_true_iff in Hw as [Hw Hoc]. apply andb_true_iff in Hw as [_ Hu].
+  destruct oc as [|n|c].
+  - rewrite (L.build_group_once e) by assumption. reflexivity.
+  - destruct (redef_targets ks) eqn:Er; [|discriminate]. rewrite (L.no_redef_assemble ks Er). reflexivity.
+  - destruct (redef_targets ks) eqn:Er; [|discriminate]. rewrite (L.no_redef_assemble ks Er). reflexivity.
+Qed.
+
+(* ---- counting occurrences ---- *)
+Definition key_dec (a b : key) : {a = b} + {a <> b}.
+Proof. decide equality; apply N.eq_dec. Defined.
+Definition cnt (k : key) (l : list key) : nat := count_occ key_dec l k.
+
+Lemma cnt_app k a b : cnt k (a ++ b) = (cnt k a + cnt k b)%nat.
+Proof. apply count_occ_app. Qed.
+Lemma cnt_cons k a l : cnt k (a :: l) = ((if key_dec a k then 1 else 0) + cnt k l)%nat.
+Proof. unfold cnt. cbn [count_occ]. destruct (key_dec a k); reflexivity. Qed.
+Lemma cnt_nil k : cnt k [] = 0%nat.
+Proof. reflexivity. Qed.
+Lemma cnt_notin k l : ~ In k l -> cnt k l = 0%nat.
+Proof. apply count_occ_not_In. Qed.
+Lemma cnt_pos_in k l : (0 < cnt k l)%nat -> In k l.
+Proof. intros H. apply (count_occ_In key_dec). exact H. Qed.
+Lemma cnt_nodup l : (forall k, (cnt k l <= 1)%nat) -> NoDup l.
+Proof. intros H. apply (NoDup_count_occ key_dec). exact H. Qed.
+Lemma nodup_cnt l k : NoDup l -> (cnt k l <= 1)%nat.
+Proof. intros H. apply (NoDup_count_occ key_dec). exact H. Qed.
+
+(* anchors of all children, each built on its own *)
+Fixpoint F (ks : items) : list key :=
+  match ks with INil => [] | ICons x xs => anchors_of (build_alt x) ++ F xs end.
+
+(* anchors of the redefiners among xs whose target is one of B (items before xs) *)
+Fixpoint Fout (B : list id) (xs : items) : list key :=
+  match xs with
+  | INil => []
+  | ICons y ys =>
+      match item_redef y with
+      | Some u => if existsb (N.eqb u) B then anchors_of (build_alt y) ++ Fout B ys else Fout B ys
+      | None => Fout B ys
+      end
+  end.
+
+(* the REDEFINES-x anchors of one group *)
+Fixpoint KR (xs : items) : list key :=
+  match xs with
+  | INil => []
+  | ICons x ys =>
+      match item_redef x with
+      | Some _ => KR ys
+      | None => if existsb (N.eqb (item_id x)) (redef_targets ys) then KRedef (item_id x) :: KR ys else KR ys
+      end
+  end.
+
+Lemma Fout_nil xs : Fout [] xs = [].
+Proof. induction xs as [|y ys IH]; [reflexivity|]. cbn [Fout existsb]. destruct (item_redef y); exact IH. Qed.
+
+Lemma Fout_split k u B xs :
+  ~ In u B ->
+  cnt k (Fout (u :: B) xs) = (cnt k (anchors_alts (L.alts_red u xs)) + cnt k (Fout B xs))%nat.
+Proof.
+  intros Hu. induction xs as [|y ys IH]; [reflexivity|].
+  cbn [Fout L.alts_red existsb]. destruct (item_redef y) as [u'|]; [|exact IH].
+  destruct (N.eqb u u') eqn:E.
+  - apply N.eqb_eq in E. subst u'. rewrite N.eqb_refl. cbn [orb].
+    assert (existsb (N.eqb u) B = false) as ->.
+    { destruct (existsb (N.eqb u) B) eqn:EB; [|reflexivity]. apply existsb_N_In in EB. contradiction. }
+    cbn [anchors_alts]. rewrite !cnt_app, IH. lia.
+  - assert (N.eqb u' u = false) as -> by (rewrite N.eqb_sym; exact E). cbn [orb].
+    destruct (existsb (N.eqb u') B); [rewrite !cnt_app, IH; lia|exact IH].
+Qed.
+
+Lemma alts_red_none u xs : ~ In u (redef_targets xs) -> L.alts_red u xs = ANil.
+Proof.
+  induction xs as [|y ys IH]; intros H; [reflexivity|].
+  cbn [L.alts_red redef_targets] in *. destruct (item_redef y) as [u'|].
+  - destruct (N.eqb u u') eqn:E; [apply N.eqb_eq in E; subst; exfalso; apply H; left; reflexivity|].
+    apply IH. intros Hin. apply H. right. exact Hin.
+  - apply IH. exact H.
+Qed.
+
+(* the anchors of the children loop = the anchors of every child once + one REDEFINES-x per union *)
+Lemma assemble_d_count k : forall xs B,
+  L.sib_ok B xs = true -> NoDup (L.kid_ids xs) -> (forall u, In u B -> ~ In u (L.kid_ids xs)) ->
+  (cnt k (anchors_props (L.assemble_d xs)) + cnt k (Fout B xs) = cnt k (F xs) + cnt k (KR xs))%nat.
+Proof.
+  induction xs as [|x xs IH]; intros B Hs Hnd HB; [reflexivity|].
+  cbn [L.kid_ids] in Hnd. inversion Hnd as [|? ? Hx Hnd']; subst.
+  cbn [L.sib_ok] in Hs. cbn [L.assemble_d Fout F KR].
+  destruct (item_redef x) as [u|] eqn:Er.
+  - apply andb_true_iff in Hs as [HuB Hs]. rewrite HuB.
+    cbn [anchors_props anchors_of js_anchor app]. rewrite !cnt_app.
+    specialize (IH B Hs Hnd' (fun u' Hu' Hin => HB u' Hu' (or_intror Hin))). lia.
+  - assert (HxB : ~ In (item_id x) B) by (intros Hin; apply (HB _ Hin); left; reflexivity).
+    assert (HB' : forall u, In u (item_id x :: B) -> ~ In u (L.kid_ids xs)).
+    { intros u [<-|Hu]; [exact Hx|]. intros Hin. apply (HB u Hu). right. exact Hin. }
+    specialize (IH (item_id x :: B) Hs Hnd' HB'). rewrite (Fout_split k (item_id x) B xs HxB) in IH.
+    destruct (existsb (N.eqb (item_id x)) (redef_targets xs)) eqn:Et.
+    + cbn [anchors_props anchors_of js_anchor anchors_alts app].
+      repeat (rewrite cnt_cons || rewrite cnt_app || rewrite cnt_nil).
+      destruct (key_dec (KRedef (item_id x)) k); lia.
+    + assert (L.alts_red (item_id x) xs = ANil) as Ha.
+      { apply alts_red_none. intros Hin. apply existsb_N_In in Hin. rewrite Hin in Et. discriminate. }
+      rewrite Ha in IH. cbn [anchors_alts] in IH. rewrite cnt_nil in IH.
+      cbn [anchors_props]. rewrite !cnt_app. lia.
+Qed.
+
+Lemma K_inv k l : In k (L.K l) -> exists j, In j l /\ (k = KName j \/ k = KRedef j).
+Proof.
+  unfold L.K. rewrite in_app_iff, !in_map_iff.
+  intros [[j [E H]]|[j [E H]]]; exists j; split; auto.
+Qed.
+Lemma K_redef l i : In (KRedef i) (L.K l) <-> In i l.
+Proof.
+  split.
+  - intros H. apply K_inv in H as [j [Hj [E|E]]]; [discriminate|inversion E; subst; exact Hj].
+  - intros H. unfold L.K. apply in_or_app. right. apply in_map. exact H.
+Qed.
+Lemma K_disj a b k : NoDup (a ++ b) -> In k (L.K a) -> In k (L.K b) -> False.
+Proof.
+  intros Hnd Ha Hb. apply K_inv in Ha as [j [Hj Ej]]. apply K_inv in Hb as [j' [Hj' Ej']].
+  assert (j = j') by (destruct Ej as [->| ->], Ej' as [E|E]; inversion E; reflexivity).
+  subst j'. exact (L.NoDup_app_disj a b j Hnd Hj Hj').
+Qed.
+
+Definition triple (y : item) : Prop :=
+  NoDup (anchors_of (build_alt y)) /\ incl (anchors_of (build_alt y)) (L.K (L.ids y))
+  /\ ~ In (KRedef (item_id y)) (anchors_of (build_alt y)).
+
+Lemma FK_count k : forall ks,
+  NoDup (L.ids_kids ks) -> (forall y, L.in_kids y ks -> triple y) ->
+  (cnt k (F ks) + cnt k (KR ks) <= 1)%nat
+  /\ ((0 < cnt k (F ks) + cnt k (KR ks))%nat -> In k (L.K (L.ids_kids ks))).
+Proof.
+  induction ks as [|x xs IH]; intros Hnd Hk; [cbn; split; [lia|intros H; lia]|].
+  cbn [L.ids_kids] in Hnd.
+  destruct (Hk x (or_introl eq_refl)) as [Tn [Ti Tr]].
+  destruct (IH (L.NoDup_app_r _ _ Hnd) (fun y Hy => Hk y (or_intror Hy))) as [B1 B2].
+  pose proof (nodup_cnt _ k Tn) as Ha.
+  assert (Hx0 : In k (L.K (L.ids x)) -> (cnt k (F xs) + cnt k (KR xs) = 0)%nat).
+  { intros Hin. destruct (Nat.eq_dec (cnt k (F xs) + cnt k (KR xs)) 0) as [E|E]; [exact E|].
+    exfalso. apply (K_disj _ _ k Hnd Hin). apply B2. lia. }
+  assert (Hax : (0 < cnt k (anchors_of (build_alt x)))%nat -> In k (L.K (L.ids x))).
+  { intros H. apply Ti. apply cnt_pos_in. exact H. }
+  assert (Hroot : In (KRedef (item_id x)) (L.K (L.ids x))) by (apply K_redef; apply L.item_id_in_ids).
+  assert (Hsup : In k (L.K (L.ids x)) \/ In k (L.K (L.ids_kids xs)) -> In k (L.K (L.ids x ++ L.ids_kids xs)))
+    by (intros H; apply L.K_app; exact H).
+  cbn [F KR L.ids_kids]. rewrite cnt_app.
+  destruct (item_redef x) as [u|].
+  - split.
+    + destruct (Nat.eq_dec (cnt k (anchors_of (build_alt x))) 0) as [E|E]; [lia|].
+      specialize (Hx0 (Hax ltac:(lia))). lia.
+    + intros H. apply Hsup.
+      destruct (Nat.eq_dec (cnt k (anchors_of (build_alt x))) 0) as [E|E]; [right; apply B2; lia|left; apply Hax; lia].
+  - destruct (existsb (N.eqb (item_id x)) (redef_targets xs)).
+    + rewrite cnt_cons. destruct (key_dec (KRedef (item_id x)) k) as [Ek|Ek].
+      * subst k. rewrite (cnt_notin _ _ Tr). specialize (Hx0 Hroot). split; [lia|]. intros _. apply Hsup. left. exact Hroot.
+      * split.
+        -- destruct (Nat.eq_dec (cnt k (anchors_of (build_alt x))) 0) as [E|E]; [lia|].
+           specialize (Hx0 (Hax ltac:(lia))). lia.
+        -- intros H. apply Hsup.
+           destruct (Nat.eq_dec (cnt k (anchors_of (build_alt x))) 0) as [E|E]; [right; apply B2; lia|left; apply Hax; lia].
+    + split.
+      * destruct (Nat.eq_dec (cnt k (anchors_of (build_alt x))) 0) as [E|E]; [lia|].
+        specialize (Hx0 (Hax ltac:(lia))). lia.
+      * intros H. apply Hsup.
+        destruct (Nat.eq_dec (cnt k (anchors_of (build_alt x))) 0) as [E|E]; [right; apply B2; lia|left; apply Hax; lia].
+Qed.
+
+Lemma anchors_triple e :
+  (forall x, wf8 e x = true -> NoDup (L.ids x) -> triple x)
+  /\ (forall ks, wf8_kids e ks = true -> NoDup (L.ids_kids ks) -> forall y, L.in_kids y ks -> triple y).
+Proof.
+  apply item_items_ind.
+  - intros i sz oc rd _ _. unfold triple.
+    assert (anchors_of (build_alt (Elem i sz oc rd)) = [KName i]) as -> by (destruct oc; reflexivity).
+    split; [repeat constructor; intros []|]. split.
+    + intros k [<-|[]]. apply L.K_name. left. reflexivity.
+    + intros [H|[]]. discriminate.
+  - intros i oc rd ks IH Hw Hnd.
+    assert (Hw' := Hw). cbn [wf8] in Hw'. apply andb_true_iff in Hw' as [Hw' _]. apply andb_true_iff in Hw' as [Hwk Hu].
+    cbn [L.ids item_id] in Hnd. inversion Hnd as [|? ? Hi Hndk]; subst.
+    specialize (IH Hwk Hndk).
+    unfold triple. rewrite (group_anchors e i oc rd ks Hndk Hw). cbn [item_id L.ids].
+    assert (Hincl : incl (anchors_props (L.assemble_d ks)) (L.K (L.ids_kids ks))).
+    { rewrite <- (proj1 (proj2 keys_bridge)). apply L.keys_assemble_d.
+      intros y Hy. rewrite (proj1 keys_bridge). apply (IH y Hy). }
+    assert (Hcnt : forall k, (cnt k (anchors_props (L.assemble_d ks)) <= 1)%nat).
+    { intros k.
+      pose proof (assemble_d_count k ks [] (L.unions_sib_ok e [] ks Hu) (L.NoDup_ids_kid_ids ks Hndk) (fun u Hf => match Hf with end)) as Hc.
+      rewrite Fout_nil, cnt_nil in Hc. destruct (FK_count k ks Hndk IH) as [B1 _]. lia. }
+    split; [|split].
+    + constructor; [|apply cnt_nodup; exact Hcnt].
+      intros Hin. apply Hincl in Hin. apply L.K_name in Hin. contradiction.
+    + intros k [<-|Hk]; [apply L.K_name; left; reflexivity|].
+      apply (L.K_incl (L.ids_kids ks)); [apply incl_tl, incl_refl|apply Hincl; exact Hk].
+    + intros [H|H]; [discriminate|]. apply Hincl in H. apply K_redef in H. contradiction.
+  - intros _ _ y [].
+  - intros x IHx xs IHxs Hw Hnd y Hy. cbn [wf8_kids] in Hw. apply andb_true_iff in Hw as [Hwx Hwxs].
+    cbn [L.ids_kids] in Hnd. destruct Hy as [->|Hy].
+    + apply IHx; [exact Hwx|exact (L.NoDup_app_l _ _ Hnd)].
+    + apply IHxs; [exact Hwxs|exact (L.NoDup_app_r _ _ Hnd)|exact Hy].
+Qed.
+
+Lemma wf8_not_raises e :
+  (forall x, wf8 e x = true -> build_raises x = false) /\ (forall ks, wf8_kids e ks = true -> kids_raise ks = false).
+Proof.
+  apply item_items_ind.
+  - reflexivity.
+  - intros i oc rd ks IH Hw. cbn [wf8] in Hw. apply andb_true_iff in Hw as [Hw Hoc]. apply andb_true_iff in Hw as [Hk _].
+    cbn [build_raises]. rewrite (IH Hk), orb_false_r. destruct oc; [reflexivity| |]; destruct (redef_targets ks); try reflexivity; discriminate.
+  - reflexivity.
+  - intros x IHx xs IHxs Hw. cbn [wf8_kids] in Hw. apply andb_true_iff in Hw as [A B]. cbn [kids_raise]. rewrite (IHx A), (IHxs B). reflexivity.
+Qed.
+
+Lemma anchors_distinct e t : NoDup (ids_of t) -> wf8 e t = true -> NoDup (anchors_of (build t)).
+Proof.
+  intros Hnd Hw. rewrite <- (proj1 ids_bridge) in Hnd. exact (proj1 (proj1 (anchors_triple e) t Hw Hnd)).
+Qed.
+
+Lemma valid_shape_full e t : NoDup (ids_of t) -> wf8 e t = true -> valid_2020_12_shape (build t) = true.
+Proof.
+  intros Hnd Hw. unfold valid_2020_12_shape.
+  rewrite (valid_shape_partial t Hnd (proj1 (wf8_not_raises e) t Hw)).
+  rewrite (NoDup_nodup_keys _ (anchors_distinct e t Hnd Hw)). reflexivity.
+Qed.
